@@ -61,3 +61,27 @@ func H_C20_registers() {
 	verif.Assert(verif.Eq(got2, []any{Map{"k1": reg["k1"], "k2": reg["k2"], "k3": nil}}), "later-query-sees-values")
 	verif.Reach("end")
 }
+
+// H_C20_kinds: registers hold values of every scalar kind exactly; a store
+// is never skipped because the new value "looks like" the old one (the
+// number 1 and the string "1", true and "true", NULL and "<nil>").
+func H_C20_kinds() {
+	exprs := []string{"1", "'1'", "TRUE", "'true'", "NULL", "'<nil>'", "n", "s"}
+	x := verif.F64("n")
+	verif.Assume(x == x)
+	str := verif.Str("s", 2, "1a")
+	vals := []any{float64(1), "1", true, "true", nil, "<nil>", x, str}
+	v1 := verif.Choose("v1", len(exprs))
+	v2 := verif.Choose("v2", len(exprs))
+	v3 := verif.Choose("v3", len(exprs))
+	vars := map[string]any{}
+	doc := Map{"t": []any{Map{"n": x, "s": str}}}
+	sql := "SELECT SETVAR('k', " + exprs[v1] + "), GETVAR('k') AS a, SETVAR('k', " + exprs[v2] + "), GETVAR('k') AS b, SETVAR('k', " + exprs[v3] + "), GETVAR('k') AS c FROM t"
+	got, ok := runQuery(doc, sql, WithVars(vars))
+	if !ok {
+		return
+	}
+	verif.Assert(verif.Eq(got, []any{Map{"a": vals[v1], "b": vals[v2], "c": vals[v3]}}), "register-semantics")
+	verif.Assert(verif.Eq(vars, map[string]any{"k": vals[v3]}), "final-map")
+	verif.Reach("end")
+}
